@@ -545,22 +545,30 @@ func calculateReuseIndexFor(r *Rule, oldResTcs []*TrafficShapingController) (equ
 // buildResourceTrafficShapingController builds TrafficShapingController slice from rules. the resource of rules must be equals to res
 func buildResourceTrafficShapingController(res string, rulesOfRes []*Rule, oldResTcs []*TrafficShapingController) []*TrafficShapingController {
 	newTcsOfRes := make([]*TrafficShapingController, 0, len(rulesOfRes))
-	for _, rule := range rulesOfRes {
+	// First pair every unchanged rule with its old controller. Doing this in the same pass as the statistic
+	// reuse below let a new or modified rule listed earlier take the old controller of an unchanged rule as
+	// its statistic donor, so the unchanged rule was rebuilt and lost its state.
+	unchangedTcs := make(map[int]*TrafficShapingController, len(rulesOfRes))
+	for i, rule := range rulesOfRes {
+		if res != rule.Resource {
+			continue
+		}
+		if equalIdx, _ := calculateReuseIndexFor(rule, oldResTcs); equalIdx >= 0 {
+			// reuse the old tc and remove it from oldResTcs
+			unchangedTcs[i] = oldResTcs[equalIdx]
+			oldResTcs = append(oldResTcs[:equalIdx], oldResTcs[equalIdx+1:]...)
+		}
+	}
+	for i, rule := range rulesOfRes {
 		if res != rule.Resource {
 			logging.Error(errors.Errorf("unmatched resource name expect: %s, actual: %s", res, rule.Resource), "Unmatched resource name in flow.buildResourceTrafficShapingController()", "rule", rule)
 			continue
 		}
-		equalIdx, reuseStatIdx := calculateReuseIndexFor(rule, oldResTcs)
-
-		// First check equals scenario
-		if equalIdx >= 0 {
-			// reuse the old tc
-			equalOldTc := oldResTcs[equalIdx]
+		if equalOldTc, ok := unchangedTcs[i]; ok {
 			newTcsOfRes = append(newTcsOfRes, equalOldTc)
-			// remove old tc from oldResTcs
-			oldResTcs = append(oldResTcs[:equalIdx], oldResTcs[equalIdx+1:]...)
 			continue
 		}
+		_, reuseStatIdx := calculateReuseIndexFor(rule, oldResTcs)
 
 		generator, supported := tcGenFuncMap[trafficControllerGenKey{
 			tokenCalculateStrategy: rule.TokenCalculateStrategy,
